@@ -1255,6 +1255,17 @@ func (c *Conn) writeCompressedMessages(codec CompressionCodec, msgs ...Message) 
 
 				})
 				if err != nil {
+					var kafkaError Error
+					if errors.As(err, &kafkaError) {
+						// The connection stays open after an error reported by
+						// the broker, so the rest of the response (the throttle
+						// time) must still be consumed, otherwise the next
+						// operation reads it as the start of its response.
+						if remain, derr := discardN(r, size, size); derr != nil {
+							return remain, derr
+						}
+						return 0, err
+					}
 					return size, err
 				}
 
